@@ -6,6 +6,7 @@ From Coq Require Import ZArith List Bool QArith Field Lia.
 Import ListNotations.
 Require Import PV.Base.Ops PV.Model.Relax PV.Proofs.RelaxProofs PV.Proofs.KaczmarzProofs.
 Require PV.Proofs.GsNrProofs.
+Require Import PV.Proofs.RelaxFrame.
 
 (* Gauss-Seidel on row i:  a_ii x'_i + sum_{j<>i} a_ij x'_j = b_i ; a zero diagonal leaves x
    untouched; no other entry changes *)
@@ -127,6 +128,40 @@ Print Assumptions C09_gauss_seidel_nr_column.
 Example C09_gauss_seidel_nr_example :
   gs_nr_col opsQ (fun a => a) [0;2]%Z [0;1]%Z [1#1;2#1] [1#5] (1#1) ([0#1], [5#1;0#1]) 0%Z = ([1#1], [4#1;-2#1]).
 Proof. vm_compute. reflexivity. Qed.
+
+
+(* "rows whose diagonal is zero are left unchanged" -- for WHOLE sweeps of the point kernels (any range start/stop/step, any
+   CSR arrays, any scalar type and operations, no algebra needed): entry k of the result is entry k of the input unless a
+   swept row i = k stores a nonzero diagonal; in particular every entry outside the swept range is untouched.  The stored
+   diagonal [diag_of] is the one the kernel finds (last stored entry of the row with column i) and does not depend on x. *)
+Theorem C09_sweeps_leave_zero_diagonal_and_unswept_rows : forall F (o : Ops F) (Ap Aj : list Z) (Ax b : list F)
+  k dflt x start stop step omega temp,
+  (forall i, In i (loop_idx start stop step) -> Z.to_nat i = k -> isz o (diag_of o Ap Aj Ax i) = true) ->
+  nth k (gauss_seidel o Ap Aj Ax x b start stop step) dflt = nth k x dflt /\
+  nth k (sor_gauss_seidel o Ap Aj Ax x b start stop step omega) dflt = nth k x dflt /\
+  nth k (jacobi o Ap Aj Ax x b temp start stop step omega) dflt = nth k x dflt.
+Proof. intros F o Ap Aj Ax b k dflt x start stop step omega temp H.
+  exact (sweeps_leave_zero_diagonal_rows o Ap Aj Ax b k dflt x start stop step omega temp [] [] H). Qed.
+Print Assumptions C09_sweeps_leave_zero_diagonal_and_unswept_rows.
+
+Theorem C09_indexed_sweeps_leave_zero_diagonal_and_unswept_rows : forall F (o : Ops F) (Ap Aj : list Z) (Ax b : list F)
+  k dflt x start stop step omega (Id indices : list Z),
+  (forall i, In i (loop_idx start stop step) -> Z.to_nat (nthZ Id i 0%Z) = k -> isz o (diag_of o Ap Aj Ax (nthZ Id i 0%Z)) = true) ->
+  (forall i, In i indices -> Z.to_nat i = k -> isz o (diag_of o Ap Aj Ax i) = true) ->
+  nth k (gauss_seidel_indexed o Ap Aj Ax x b Id start stop step) dflt = nth k x dflt /\
+  nth k (jacobi_indexed o Ap Aj Ax x b indices omega) dflt = nth k x dflt.
+Proof. intros F o Ap Aj Ax b k dflt x start stop step omega Id indices.
+  exact (indexed_sweeps_leave_zero_diagonal_rows o Ap Aj Ax b k dflt x start stop step omega Id indices). Qed.
+Print Assumptions C09_indexed_sweeps_leave_zero_diagonal_and_unswept_rows.
+
+(* not vacuous: a 3 x 3 matrix with a zero diagonal in row 1, forward Gauss-Seidel over all rows (rationals) *)
+Example C09_zero_diagonal_example :
+  let Ap := [0; 2; 4; 6]%Z in let Aj := [0; 1; 0; 1; 1; 2]%Z in
+  let Ax := [2; 1; 1; 0; 1; 4]%Q in let b := [1; 1; 1]%Q in let x := [5; 7; 9]%Q in
+  nth 1 (gauss_seidel opsQ Ap Aj Ax x b 0 3 1) 0%Q = 7%Q /\
+  isz opsQ (diag_of opsQ Ap Aj Ax 1%Z) = true /\
+  nth 0 (gauss_seidel opsQ Ap Aj Ax x b 0 3 1) 0%Q <> 5%Q.
+Proof. cbv zeta. split; [vm_compute; reflexivity|]. split; [vm_compute; reflexivity|]. vm_compute. discriminate. Qed.
 
 (* the exact solution is a fixed point of a whole sweep, in any row order *)
 Theorem C09_gauss_seidel_fixed_point : forall F (o : Ops F) inv, is_field o inv ->
